@@ -43,14 +43,4 @@ impl<'a, Store: StorageData> TransactionMut<'a, Store> {
     pub(crate) fn new(data: &'a mut DbImpl<Store>) -> Self {
         Self { db: data }
     }
-
-    pub(crate) fn commit(self) -> Result<(), DbError> {
-        self.db.commit()?;
-        Ok(())
-    }
-
-    pub(crate) fn rollback(self) -> Result<(), DbError> {
-        self.db.rollback()?;
-        Ok(())
-    }
 }
